@@ -79,6 +79,14 @@ func genC03(seed uint64, tier string) *world.Scenario {
 		if r.Bool(0.08) && !f.Driver.NoEnable {
 			f.Driver.ModeStuck = true
 		}
+		if ur := kernel.NewRand(seed, "c03.unreadable."+f.ID); ur.Bool(0.12) && kind != "cmd" && f.PwmMap != nil {
+			// a fan whose PWM value can never be read (every read of the file fails): fan2go then works with
+			// the value it believes to have set; often with the curve at its maximum when the signal comes
+			sc.Faults = append(sc.Faults, world.FaultSpec{Op: "read", Target: "fan:" + f.ID + ":pwm", Nth: 0, Count: 1 << 30, Kind: "eio"})
+			if ur.Bool(0.7) {
+				sc.Sensors[len(sc.Sensors)-1].Prog = constTemp(tempForCurve(255))
+			}
+		}
 		sc.Fans = append(sc.Fans, f)
 	}
 	// signals
